@@ -44,6 +44,10 @@ impl SetOp {
     pub fn is_insertion(&self) -> bool {
         matches!(self, SetOp::Insert { .. } | SetOp::Replace { .. } | SetOp::Extend { .. })
     }
+    /// see `MapOp::relevant`
+    pub fn relevant(&self) -> PMask {
+        self.base_props() | C02 | C03 | C05 | C06 | C12
+    }
 }
 
 #[derive(Clone, Copy, PartialEq, Eq, Debug)]
@@ -593,12 +597,17 @@ impl<K: KeyT, const N: usize> SetSys<K, N> {
                 }
             }
             SRet::SomeElems { count, from } => {
-                let mut sorted = side.items.clone();
-                sorted.sort();
-                sorted.dedup();
-                let good = !panicked && side.items.len() == *count && sorted.len() == side.items.len() && side.items.iter().all(|x| from.contains(x));
-                consistent &= good;
-                cx.check(pm | C02, good, || format!("yielded {:?} but should yield {count} distinct elements of {from:?}", side.items));
+                let mut codes: Vec<u8> = side.items.iter().map(|k| k.k).collect();
+                codes.sort_unstable();
+                codes.dedup();
+                let sem = !panicked && side.items.len() == *count && codes.len() == side.items.len() && side.items.iter().all(|x| from.iter().any(|f| f.k == x.k));
+                consistent &= sem;
+                cx.check(pm, sem, || format!("yielded {:?} but should yield {count} distinct elements of {from:?}", side.items));
+                if sem {
+                    let ident = side.items.iter().all(|x| from.contains(x));
+                    consistent &= ident;
+                    cx.check(C12 | C02 | (pm & !C07), ident, || format!("yielded the objects {:?} but the stored objects are {from:?}", side.items));
+                }
             }
         }
         if let (Some(want), Some((got_pulls, after_none))) = (mo.pulls, side.pulls) {
@@ -668,6 +677,19 @@ impl<K: KeyT, const N: usize> SetSys<K, N> {
         for i in path {
             let op = self.ops[*i as usize];
             self.step(&mut bx, &mut model, &probes, &op, cx, &mut leaked);
+        }
+        if crate::mapsys::stale() {
+            let s = &mut bx.c;
+            let free = N - s.len().min(N);
+            let codes: Vec<u8> = (self.nk..K::MAXCODE).take(free).collect();
+            for c in &codes {
+                s.insert(K::mk(*c, 0));
+            }
+            for c in codes.iter().rev() {
+                K::with_q(*c, |q| {
+                    s.remove(q);
+                });
+            }
         }
         cx.quiet = was;
         SBuilt { bx, model, probes, leaked }
